@@ -44,7 +44,7 @@ def Etag(name, kids=(), attrs=(), ws=True):
     return ["E", name, ws, [list(a) for a in attrs], list(kids)]
 
 
-LEAVES = [T("s"), T("q\"t'u"), ["N", 7], T("\u00e9\U0001F600 \u4e2d"), dep("leafdep"), ["D", "leafdep", "0.9", {}],
+LEAVES = [T("s"), T("Dear {name}, {component} %s {0} ${x}"), T("q\"t'u"), ["N", 7], T("\u00e9\U0001F600 \u4e2d"), dep("leafdep"), ["D", "leafdep", "0.9", {}],
           ["XJ", dep("xdep")],
           ["XJ", Etag("p", [T("in-x"), dep("xtagdep")])],
           ["XJ", T("xs")],
@@ -59,7 +59,7 @@ KINDS = [
 RED_LEAVES = [T("s"), dep("leafdep"), ["XJ", Etag("p", [dep("xtagdep")])]]
 
 PROP_NAMES = ["p", "class_", "data_x", "x__"]
-PROP_VALUES = [None, True, False, 3, 2.5, "s", 'q"t', "it's", ["LIST", [1, "a", None]], ["TUP", [1, 2]],
+PROP_VALUES = [None, True, False, 3, 2.5, "s", "{name} {component} %(n)s {0}", 'q"t', "it's", ["LIST", [1, "a", None]], ["TUP", [1, 2]],
                {"a": 1, "b": ["LIST", [True]]}, ["JX", "window.fn"], "window.fn", "\u00e9\U0001F600",
                Etag("em", [T("e"), dep("tagpropdep")], [("id", "i")]),
                J("PropComp", [dep("comppropdep")], [("z", 1)]),
